@@ -108,7 +108,12 @@ def run_spec(spec):
 
     def run():
         prog = bb.loads(text)
-        a0, t0, a1 = snap(prog, bb)
+        try:
+            a0, t0, a1 = snap(prog, bb)
+        except engine.Abort:
+            raise
+        except Exception:  # noqa: a program that cannot be serialised at all is C01/C09's subject
+            return None
         apply_op(op, prog, bb, True, lambda n: P.SNum(T.V("float", z3.Real("pv_" + n)), float))
         b0, t2, b1 = snap(prog, bb)
         return (a0, t0, a1, b0, t2, b1)
@@ -130,6 +135,9 @@ def run_spec(spec):
             # an exception of the operation itself is not C13's subject unless the program was changed; re-run concretely decides
             cands.append(("raises %s: %s" % (type(pth.value).__name__, str(pth.value)[:120]), z3.BoolVal(True)))
         else:
+            if pth.value is None:
+                out["skipped_unserialisable"] = out.get("skipped_unserialisable", 0) + 1
+                continue
             a0, t0, a1, b0, t2, b1 = pth.value
             for where, cond in _snap.diff(a0, a1, "content before/after dumps"):
                 cands.append((where, cond))
